@@ -311,8 +311,8 @@ func plans() map[string]*propertyPlan {
 			thorough: []spec{{family: "tree", cases: t, cpuS: 7200, asKB: 8 << 20, wallS: 9000}},
 		}
 	}
-	c06 := treePlan("the subtree under every using node is compared with the reference expansion (names, kinds, nesting, types bound at the definition site, namespace of the using module) and no Entry object may be shared between two instances; in the independence family one grouping (with a list, a leaf-list with 1-5 defaults, defaulted and mandatory leaves, a config-false container, a choice, optionally an action; optionally nested through a second grouping) is used in three places plus a later-loaded module, one instance is changed by 1-4 deviations or augments written in another module, and every other instance must dump exactly as without that module", 20000, 400000)
-	c06.quick = append(c06.quick, spec{family: "independence", cases: 6000, cpuS: 900, asKB: 8 << 20, wallS: 1200})
+	c06 := treePlan("the subtree under every using node is compared with the reference expansion (names, kinds, nesting, types bound at the definition site, namespace of the using module) and no Entry object may be shared between two instances; in the independence family one grouping (with a list, a leaf-list with 1-5 defaults, defaulted and mandatory leaves, a config-false container, a choice, optionally an action; optionally nested through a second grouping) is used in three places plus a later-loaded module, one instance is changed by 1-4 deviations or augments written in another module, and every other instance must dump exactly as without that module", 30000, 400000)
+	c06.quick = append(c06.quick, spec{family: "independence", cases: 9000, cpuS: 900, asKB: 8 << 20, wallS: 1200})
 	c06.thorough = append(c06.thorough, spec{family: "independence", cases: 150000, cpuS: 7200, asKB: 8 << 20, wallS: 9000})
 	c06.evaluations = "sets,cases"
 	c06.minObserved["instances_compared"] = 5000
@@ -324,17 +324,17 @@ func plans() map[string]*propertyPlan {
 		pl.rule += "; plus the late-fault family: 13 templates of faults that arise only during augment merging or deviation application, or inside rpc/action input/output (colliding augments from two modules, collision with a uses-provided child, childless targets, a missing target behind an augment chain, a bogus step under an rpc, unknown type / bad range / unknown grouping inside input or output, an unresolvable replacement type, a doubly removed node), with random padding and load order - Process must report an error"
 		return pl
 	}
-	c17 := treePlan("on every set whose trees match, 60 sampled (start, target) pairs: absolute prefixed path from the start node's defining module, relative path through the common ancestor, and the absolute path with one step replaced by a fresh name (must return nothing); the input and output of every rpc and action are looked up, written or not (Parent, Path and the way back through ..); plus the header sets of C13 (several revisions of one module, importer with or without revision-date, all load orders): an absolute path whose first prefix is that import resolves in exactly the revision the import denotes", 20000, 400000)
+	c17 := treePlan("on every set whose trees match, 60 sampled (start, target) pairs: absolute prefixed path from the start node's defining module, relative path through the common ancestor, and the absolute path with one step replaced by a fresh name (must return nothing); the input and output of every rpc and action are looked up, written or not (Parent, Path and the way back through ..); plus the header sets of C13 (several revisions of one module, importer with or without revision-date, all load orders): an absolute path whose first prefix is that import resolves in exactly the revision the import denotes", 30000, 400000)
 	c17.quick = append(c17.quick, spec{family: "revisions", cases: 1500, cpuS: 900, asKB: 8 << 20, wallS: 1200})
 	c17.thorough = append(c17.thorough, spec{family: "revisions", cases: 30000, cpuS: 7200, asKB: 8 << 20, wallS: 9000})
 	c17.evaluations = "sets,header_sets"
 	c17.minObserved["path_lookups_through_import"] = 1000
 	return map[string]*propertyPlan{
-		"C04": late(treePlan("after a clean Process every tree is walked (Dir and rpc input/output): name/key, parent pointers, no Entry object reached twice, kind vs child map/type/list attributes, choice children are cases, no unapplied augment, no node with recorded errors; and the set of errors expected by the reference must not be silently absent", 20000, 400000), 2600, 52000),
+		"C04": late(treePlan("after a clean Process every tree is walked (Dir and rpc input/output): name/key, parent pointers, no Entry object reached twice, kind vs child map/type/list attributes, choice children are cases, no unapplied augment, no node with recorded errors; and the set of errors expected by the reference must not be silently absent", 30000, 400000), 3900, 52000),
 		"C06": c06,
-		"C07": late(treePlan("augmented trees are compared with the reference graft (children, namespace and instantiating module of grafted nodes) and augments the reference cannot apply must be reported", 20000, 400000), 1400, 28000),
-		"C09": treePlan("the resolved type of every leaf (base kind, units, default, accumulated patterns) is compared with the reference binder", 20000, 400000),
-		"C12": treePlan("ReadOnly, Namespace and InstantiatingModule of every node are compared with the reference", 20000, 400000),
+		"C07": late(treePlan("augmented trees are compared with the reference graft (children, namespace and instantiating module of grafted nodes) and augments the reference cannot apply must be reported", 30000, 400000), 2100, 28000),
+		"C09": treePlan("the resolved type of every leaf (base kind, units, default, accumulated patterns) is compared with the reference binder", 30000, 400000),
+		"C12": treePlan("ReadOnly, Namespace and InstantiatingModule of every node are compared with the reference", 30000, 400000),
 		"C17": c17,
 		"C02": {
 			level:       "exploration",
@@ -352,7 +352,7 @@ func plans() map[string]*propertyPlan {
 				// the eighth of such a run), and escapes inside the substatements of a pattern
 				enumSpec("a;{} \n", 5, "a{b{c{d{e{f{g{h", "}}}}}}}", 8), enumSpec("a;{} ", 5, "a{b{c{d{e{f{g{h{i{j{k;}}}", "}}}}}}}}", 8),
 				enumSpec("a\\dn\" ", 5, "pattern \"a\" { b \"", "\"; }", 8), enumSpec("a\\dn\" +", 5, "pattern ", " { pattern \"\\d\"; b \"\\n\"; }", 8),
-				{family: "random", cases: 40000, cpuS: 600, asKB: 8 << 20, wallS: 900},
+				{family: "random", cases: 200000, cpuS: 600, asKB: 8 << 20, wallS: 900},
 			},
 			thorough: []spec{
 				enumSpec(sigma15, 6, "", "", 64), enumSpec(sigma15, 6, "a ", ";", 64), enumSpec(sigma15, 5, "a{", "}", 16), enumSpec(sigma15, 6, "a \"b\"", "", 64), enumSpec(sigma15, 5, "pattern ", ";", 16),
@@ -367,7 +367,7 @@ func plans() map[string]*propertyPlan {
 			assumptions: []string{"positions are 1-based lines and 1-based character columns (a tab is one character)"},
 			minObserved: map[string]int64{"statements": 10000, "fault_texts": 1000, "positions_checked": 500},
 			nontrivial:  "nontrivial", evaluations: "texts,fault_sets,layouts",
-			quick:    []spec{{family: "random", cases: 40000, cpuS: 600, asKB: 8 << 20, wallS: 900}, {family: "semantic", cases: 6000, cpuS: 600, asKB: 8 << 20, wallS: 900}, {family: "files", cases: 1500, cpuS: 600, asKB: 8 << 20, wallS: 900}},
+			quick:    []spec{{family: "random", cases: 150000, cpuS: 600, asKB: 8 << 20, wallS: 900}, {family: "semantic", cases: 24000, cpuS: 600, asKB: 8 << 20, wallS: 900}, {family: "files", cases: 1500, cpuS: 600, asKB: 8 << 20, wallS: 900}},
 			thorough: []spec{{family: "random", cases: 2000000, cpuS: 3600, asKB: 8 << 20, wallS: 5400}, {family: "semantic", cases: 200000, cpuS: 3600, asKB: 8 << 20, wallS: 5400}, {family: "files", cases: 30000, cpuS: 3600, asKB: 8 << 20, wallS: 5400}},
 		},
 		"C01": {
@@ -376,7 +376,7 @@ func plans() map[string]*propertyPlan {
 			assumptions: []string{"texts are at most 64 KiB (quick) or 1 MiB (thorough); recursion proportional to nesting beyond that is not explored", "reads after a failed Process are not driven: nothing but errors comes back from it", "CPU seconds of the child, not wall-clock time, decide 'returns in bounded time'"},
 			minObserved: map[string]int64{"cases": 20000, "outcome:clean": 500, "outcome:process-error": 2000},
 			nontrivial:  "nontrivial", evaluations: "cases",
-			quick:    []spec{{family: "mutate", cases: 30000, cpuS: 600, asKB: 8 << 20, wallS: 1500}, {family: "hazards", cases: 20000, cpuS: 600, asKB: 8 << 20, wallS: 1500}, {family: "lexical", cases: 1200, params: map[string]string{"case_cpu_s": "120"}, cpuS: 900, asKB: 8 << 20, wallS: 1500}, {family: "corpus", cases: 6000, cpuS: 600, asKB: 8 << 20, wallS: 1500}},
+			quick:    []spec{{family: "mutate", cases: 40000, cpuS: 600, asKB: 8 << 20, wallS: 1500}, {family: "hazards", cases: 30000, cpuS: 600, asKB: 8 << 20, wallS: 1500}, {family: "lexical", cases: 1200, params: map[string]string{"case_cpu_s": "120"}, cpuS: 900, asKB: 8 << 20, wallS: 1500}, {family: "corpus", cases: 6000, cpuS: 600, asKB: 8 << 20, wallS: 1500}},
 			thorough: []spec{{family: "mutate", cases: 900000, cpuS: 7200, asKB: 8 << 20, wallS: 9000}, {family: "hazards", cases: 500000, cpuS: 7200, asKB: 8 << 20, wallS: 9000}, {family: "lexical", cases: 12000, params: map[string]string{"case_cpu_s": "300"}, cpuS: 7200, asKB: 8 << 20, wallS: 9000}, {family: "corpus", cases: 100000, cpuS: 7200, asKB: 8 << 20, wallS: 9000}},
 		},
 		"C03": {
@@ -385,7 +385,7 @@ func plans() map[string]*propertyPlan {
 			assumptions: []string{"'known in its context' means: the parent's Go type has a field tagged with that keyword - the table is goyang's own declaration, not the RFC's"},
 			minObserved: map[string]int64{"accepted": 2000, "rejected_as_required": 2000, "nodes_paired": 20000},
 			nontrivial:  "nontrivial", evaluations: "trees",
-			quick:    []spec{{family: "trees", cases: 50000, cpuS: 900, asKB: 8 << 20, wallS: 1200}},
+			quick:    []spec{{family: "trees", cases: 300000, cpuS: 900, asKB: 8 << 20, wallS: 1200}},
 			thorough: []spec{{family: "trees", cases: 1500000, cpuS: 7200, asKB: 8 << 20, wallS: 9000}},
 		},
 		"C10": {
@@ -394,7 +394,7 @@ func plans() map[string]*propertyPlan {
 			assumptions: []string{"number-literal leniency (hex, octal, underscore, leading plus, '1.', '.5') is not judged: C15 scopes literal forms and goyang documents base-0 parsing"},
 			minObserved: map[string]int64{"restrictions": 100000, "chains_compared": 5000},
 			nontrivial:  "nontrivial", evaluations: "restrictions,chains,malformed,child_restrictions,decimal_restrictions",
-			quick:    []spec{{family: "grid", shards: 32, cpuS: 900, asKB: 8 << 20, wallS: 1200}, {family: "chains", cases: 50000, cpuS: 900, asKB: 8 << 20, wallS: 1200}, {family: "malformed", shards: 4, cpuS: 600, asKB: 8 << 20, wallS: 900}, {family: "child", cases: 400000, cpuS: 900, asKB: 8 << 20, wallS: 1200}, {family: "decgrid", shards: 16, cpuS: 900, asKB: 8 << 20, wallS: 1200}},
+			quick:    []spec{{family: "grid", shards: 32, cpuS: 900, asKB: 8 << 20, wallS: 1200}, {family: "chains", cases: 150000, cpuS: 900, asKB: 8 << 20, wallS: 1200}, {family: "malformed", shards: 4, cpuS: 600, asKB: 8 << 20, wallS: 900}, {family: "child", cases: 1000000, cpuS: 900, asKB: 8 << 20, wallS: 1200}, {family: "decgrid", shards: 16, cpuS: 900, asKB: 8 << 20, wallS: 1200}},
 			thorough: []spec{{family: "grid", shards: 64, cpuS: 7200, asKB: 8 << 20, wallS: 9000}, {family: "chains", cases: 1000000, cpuS: 7200, asKB: 8 << 20, wallS: 9000}, {family: "malformed", shards: 4, cpuS: 600, asKB: 8 << 20, wallS: 900}, {family: "child", cases: 20000000, cpuS: 7200, asKB: 8 << 20, wallS: 9000}, {family: "decgrid", shards: 16, cpuS: 900, asKB: 8 << 20, wallS: 1200}},
 		},
 		"C05": {
@@ -403,7 +403,7 @@ func plans() map[string]*propertyPlan {
 			assumptions: []string{"Go randomises every range over a map; repetition samples iteration orders (the rarest alternative order of a 2-entry map has p=1/8 per iteration), it does not enumerate them", "two texts with the same (name, revision) are not generated here: their rejection is C13's subject and is order-dependent by construction"},
 			minObserved: map[string]int64{"executions": 50000, "error_outcomes": 20},
 			nontrivial:  "nontrivial", evaluations: "executions",
-			quick:    []spec{{family: "conflict", cases: 240, cpuS: 900, asKB: 8 << 20, wallS: 1200}, {family: "generated", cases: 240, cpuS: 900, asKB: 8 << 20, wallS: 1200}, {family: "cli", cases: 48, cpuS: 900, wallS: 1200}},
+			quick:    []spec{{family: "conflict", cases: 330, cpuS: 900, asKB: 8 << 20, wallS: 1200}, {family: "generated", cases: 320, cpuS: 900, asKB: 8 << 20, wallS: 1200}, {family: "cli", cases: 48, cpuS: 900, wallS: 1200}},
 			thorough: []spec{{family: "conflict", cases: 3000, cpuS: 7200, asKB: 8 << 20, wallS: 9000}, {family: "generated", cases: 3000, cpuS: 7200, asKB: 8 << 20, wallS: 9000}, {family: "cli", cases: 400, cpuS: 7200, wallS: 9000}},
 		},
 		"C19": {
@@ -421,7 +421,7 @@ func plans() map[string]*propertyPlan {
 			assumptions: []string{"one module per text; a text with two modules of which the second is rejected is documented by goyang to leave the first behind and is not generated"},
 			minObserved: map[string]int64{"process_steps_compared": 5000},
 			nontrivial:  "nontrivial", evaluations: "histories",
-			quick:    []spec{{family: "history", cases: 6000, cpuS: 900, asKB: 8 << 20, wallS: 1200}},
+			quick:    []spec{{family: "history", cases: 12000, cpuS: 900, asKB: 8 << 20, wallS: 1200}},
 			thorough: []spec{{family: "history", cases: 150000, cpuS: 7200, asKB: 8 << 20, wallS: 9000}},
 		},
 		"C08": {
@@ -439,7 +439,7 @@ func plans() map[string]*propertyPlan {
 			assumptions: []string{"the order of Values is only required to be a function of the schema: it is compared across loads and load orders, not against a predicted order", "map iteration orders are sampled by repetition, not enumerated"},
 			minObserved: map[string]int64{"identity_checks": 10000},
 			nontrivial:  "nontrivial", evaluations: "graphs",
-			quick:    []spec{{family: "dag", cases: 5000, cpuS: 900, asKB: 8 << 20, wallS: 1200}},
+			quick:    []spec{{family: "dag", cases: 20000, cpuS: 900, asKB: 8 << 20, wallS: 1200}},
 			thorough: []spec{{family: "dag", cases: 100000, cpuS: 7200, asKB: 8 << 20, wallS: 9000}},
 		},
 		"C13": {
@@ -448,7 +448,7 @@ func plans() map[string]*propertyPlan {
 			assumptions: []string{"two texts with the same (name, latest revision) are not generated in (a): the second is rejected by design", "plain search-path directories only; dir/... recursion is not judged", "augment and deviation statements stay in the module in (c): the claim lists data nodes, typedefs, groupings and identities"},
 			minObserved: map[string]int64{"load_orders": 5000, "layouts": 1000, "splits_compared": 1000},
 			nontrivial:  "nontrivial", evaluations: "load_orders,layouts,splits_compared",
-			quick:    []spec{{family: "revisions", cases: 3000, cpuS: 900, asKB: 8 << 20, wallS: 1200}, {family: "files", cases: 2000, cpuS: 900, asKB: 8 << 20, wallS: 1200}, {family: "split", cases: 10000, cpuS: 900, asKB: 8 << 20, wallS: 1200}},
+			quick:    []spec{{family: "revisions", cases: 8000, cpuS: 900, asKB: 8 << 20, wallS: 1200}, {family: "files", cases: 6000, cpuS: 900, asKB: 8 << 20, wallS: 1200}, {family: "split", cases: 25000, cpuS: 900, asKB: 8 << 20, wallS: 1200}},
 			thorough: []spec{{family: "revisions", cases: 60000, cpuS: 7200, asKB: 8 << 20, wallS: 9000}, {family: "files", cases: 40000, cpuS: 7200, asKB: 8 << 20, wallS: 9000}, {family: "split", cases: 200000, cpuS: 7200, asKB: 8 << 20, wallS: 9000}},
 		},
 		"C14": {
@@ -457,7 +457,7 @@ func plans() map[string]*propertyPlan {
 			assumptions: []string{"behaviour of Set/SetNext after a call that returned an error is unspecified", "bit positions need not be unique (the property does not ask for it)"},
 			minObserved: map[string]int64{"sequences": 100000, "schema_cases": 1000},
 			nontrivial:  "nontrivial", evaluations: "sequences,literal_cases", exhaustive: true,
-			quick:    []spec{{family: "enum", shards: 60, params: map[string]string{"maxlen": "3"}, cpuS: 600, asKB: 8 << 20, wallS: 900}, {family: "literal", shards: 8, cpuS: 600, asKB: 8 << 20, wallS: 900}},
+			quick:    []spec{{family: "enum", shards: 60, params: map[string]string{"maxlen": "3", "schema_every": "20"}, cpuS: 600, asKB: 8 << 20, wallS: 900}, {family: "literal", shards: 8, cpuS: 600, asKB: 8 << 20, wallS: 900}},
 			thorough: []spec{{family: "enum", shards: 60, params: map[string]string{"maxlen": "4", "schema_every": "200"}, cpuS: 3600, asKB: 8 << 20, wallS: 5400}, {family: "literal", shards: 8, cpuS: 600, asKB: 8 << 20, wallS: 900}},
 		},
 		"C15": {
